@@ -19,7 +19,9 @@ CONSTANTS MaxDials,            \* bound on the number of dials
           FixAbortLeak,        \* on RemoteAbort(AlreadySyncing) free a slot that is still Running(Connect) (D9 when FALSE)
           KeepResyncOnAccept,  \* an accept that overrides a running connect keeps the resync flag (D10 when FALSE)
           SyncingChoices,      \* possible sets of nodes that have the document in their sync set
-          DialReasons          \* reasons the environment dials with
+          DialReasons,         \* reasons the environment dials with
+          Yielder              \* the node that gives up its own pending dial when both dial at once (the code: the greater
+                               \* endpoint id = node 2; C11 only demands that exactly one of the two does)
 
 Node == {1, 2}
 Other(n) == 3 - n
@@ -48,7 +50,7 @@ AcceptDecision(m) ==
   IF m \notin syncing THEN "NotFound"
   ELSE IF st[m] = "Idle" THEN "Allow"
   ELSE IF st[m] = "Accept" THEN "AlreadySyncing"
-  ELSE IF m > Other(m) THEN "Allow" ELSE "AlreadySyncing"    \* simultaneous dial: the greater id accepts
+  ELSE IF m = Yielder THEN "Allow" ELSE "AlreadySyncing"     \* simultaneous dial: exactly one side yields
 
 \* ---- sync_with_peer / start_connect -------------------------------------------
 Dial(n, reason) ==
